@@ -51,12 +51,12 @@ type guardedField struct {
 // enforced even if the inference no longer finds a locked write (e.g. because
 // the lock was removed from the only writer).
 var confirmedGuarded = map[string]map[string]string{
-	"pkg/resource.Value":          {"value": "value.go: mu guards value", "changeTime": "value.go: written with value in the save callback"},
-	"pkg/resource.Collection":     {"byId": "collection.go:22 'mu protects byId and rng'"},
-	"internal/minibus.Bus":        {"listeners": "bus.go: listenerM"},
-	"internal/minibus.listener":   {"ch": "bus.go: close/send exclusion"},
-	"pkg/router.router":           {"registry": "router.go: mu"},
-	"pkg/trait/wastepb.Model":     {"allWasteRecords": "model.go:28 'guards allWasteRecords and genId'", "genId": "same"},
+	"pkg/resource.Value":        {"value": "value.go: mu guards value", "changeTime": "value.go: written with value in the save callback"},
+	"pkg/resource.Collection":   {"byId": "collection.go:22 'mu protects byId and rng'"},
+	"internal/minibus.Bus":      {"listeners": "bus.go: listenerM"},
+	"internal/minibus.listener": {"ch": "bus.go: close/send exclusion"},
+	"pkg/router.router":         {"registry": "router.go: mu"},
+	"pkg/trait/wastepb.Model":   {"allWasteRecords": "model.go:28 'guards allWasteRecords and genId'", "genId": "same"},
 }
 
 // guardedExcluded: structs excluded from the inference with the reason.
